@@ -263,3 +263,23 @@ package biscuit
 //@ ensures version_gate[C07]: err == nil ==> input.Version != nil && *input.Version == 3 && res.version == 3
 //@ ensures err == nil ==> res != nil && fresh(res) && blockWF(res)
 //@ ensures err != nil ==> res == nil
+
+// ---------------------------------------------------------------------------
+// decoding (C07 C10): what later code relies on is established here
+
+//@ func (u *Unmarshaler) Unmarshal(serialized []byte) (res *Biscuit, err error)
+//@ serves C01 C07 C10
+//@ requires u != nil
+//@ modifies nothing
+//@ loop 0 modifies elems(blocks), *symbols, spare(*symbols)
+//@ loop 0 invariant len(blocks) == len(container.Blocks) && ((arr(*symbols) == pre(arr(*symbols)) && off(*symbols) == pre(off(*symbols)) && cap(*symbols) == pre(cap(*symbols)) && len(*symbols) >= pre(len(*symbols))) || freshInLoop(arr(*symbols)))
+//@ loop 0 invariant forall j int :: { blocks[j] } 0 <= j && j < #i ==> blockWF(blocks[j])
+//@ loop 0 invariant forall j int :: { container.Blocks[j] } 0 <= j && j < #i ==> sizesOK(container.Blocks[j])
+//@ ensures no_token_on_error: err != nil ==> res == nil
+//@ ensures token_ok: err == nil ==> tokenOK(res)
+
+//@ func Unmarshal(serialized []byte) (res *Biscuit, err error)
+//@ serves C01 C07 C10
+//@ modifies nothing
+//@ ensures no_token_on_error: err != nil ==> res == nil
+//@ ensures token_ok: err == nil ==> tokenOK(res)
